@@ -318,6 +318,9 @@ def oracle(inp):
         if real_socket.AF_INET6 in fams and fams[both[0]] != real_socket.AF_INET6:
             return f"reorder: first attempt is not IPv6 although one exists: {both}"
         return None
+    if len(inp) > 5:
+        r = run_race(inp[:5], cancel_after_iteration=inp[5])
+        return _check_final(r["result"], r["open"]) if r["done"] else None
     snaps = run_race(inp)
     msg = _check_final(snaps[-1][3], snaps[-1][2])
     if msg:
@@ -474,3 +477,35 @@ def race_cases(thorough, rng):
         kind = rng.choice((1, 1, 1, 0))
         for batches, tags in explore(kind, has_delay if kind == 1 else 0, addrs, locals_opt, rng, 3, 4, crash=True):
             yield _mk_case(kind, has_delay if kind == 1 else 0, addrs, locals_opt, batches, tags + ["scripted"])
+
+
+def extra(ctx):
+    """Per-iteration cancellation sweep on the real code: the caller is cancelled after d loop iterations for every d
+    up to the length of the run; only the conclusion of result_exact is checked (one open socket = the returned one /
+    none on an exceptional exit).  A failure is reported as a broken correspondence with a replayable input."""
+    A4, A6, _AU = (int(f) for f in FAMS)
+    runs = bad = 0
+    scripts = [
+        ([[A6, 1, 0], [A4, 1, 0]], [[[3, 0]], [[0, 0], [0, 1]]]),
+        ([[A6, 1, 0], [A4, 1, 0]], [[[3, 0]], [[1, 0]], [[0, 1]]]),
+        ([[A6, 1, 0], [A4, 1, 0], [A6, 1, 0]], [[[3, 0]], [[3, 0]], [[0, 2]]]),
+        ([[A6, 1, 0], [A4, 1, 0], [A6, 1, 0]], [[[1, 0]], [[3, 0]], [[0, 2], [0, 1]]]),
+        ([[A6, 0, 0], [A4, 1, 2], [A6, 1, 0]], [[[0, 2]]]),
+        ([[A4, 1, 0]], [[[0, 0]]]),
+        ([[A6, 1, 1], [A4, 1, 0]], []),
+    ]
+    for addrs, batches in scripts:
+        for kind in (1, 0):
+            inp = [kind, 1 if kind == 1 else 0, addrs, [], batches]
+            total = run_race(inp, cancel_after_iteration=10 ** 6)["iterations"]
+            for d in range(0, total + 2):
+                r = run_race(inp, cancel_after_iteration=d)
+                runs += 1
+                msg = _check_final(r["result"], r["open"]) if r["done"] else "race: still pending after the script"
+                if r["done"] is False and not r["cancelled_injected"]:
+                    msg = None      # the script itself does not finish the race: nothing to check
+                if msg:
+                    bad += 1
+                    ctx.problems.append(dict(kind="correspondence", detail=f"cancel sweep d={d}: {msg}",
+                                             input=__import__("common.sx", fromlist=["sx"]).to_text(inp + [d])))
+    return dict(cancel_sweep_runs=runs, cancel_sweep_failures=bad)
